@@ -94,6 +94,18 @@ func RunScenarios(rep *Report, scs []Scenario, o ScenarioOpts) bool {
 			break
 		}
 	}
+	if _, both := rep.Coverage["states"]; both {
+		// a BFS part has already filled the top-level counts: add to them
+		rep.Coverage["states"] = rep.Coverage["states"].(int) + outcomes
+		rep.Coverage["transitions"] = rep.Coverage["transitions"].(int) + points
+		rep.Coverage["traces_validated_against_impl"] = rep.Coverage["traces_validated_against_impl"].(int) + validated
+		rep.Coverage["schedule_exploration"] = map[string]any{"distinct_outcomes": outcomes, "choice_points": points, "schedules": total,
+			"deviation_bound_completed": completedBound, "scenarios": per}
+		if completedBound == "none" {
+			rep.Coverage["exhaustive"] = false
+		}
+		return true
+	}
 	rep.Coverage["states"] = outcomes
 	rep.Coverage["transitions"] = points
 	rep.Coverage["traces_validated_against_impl"] = validated
